@@ -340,4 +340,23 @@ UNITS = [
          funcs=[PAO + ": check_num_threads"], min_obligations=3),
 ]
 
+# ---- bounded stand-ins (distinctness, completeness): concrete small machines, real loops unwound ----
+def nocontract(lift_loops_count, locator, extra):
+    return Lift(PAO, locator, rules=([ROUND] if "numa" in locator else []) + DEC_RULES + extra, loops={"count": lift_loops_count})
+B_HELP = {"pim": Lift(PAO, r"bool pu_in_process_mask\(", rules=SPELL + [TOPO]),
+          "cnt": Lift(PAO, r"void check_num_threads\(", rules=[THROWS_IF] + SPELL + [TOPO])}
+BOUNDED = [
+    ("compact", "decode_compact_distribution", 3, [], 8),
+    ("scatter", "decode_scatter_distribution", 3, LOCAL_DECLS + locvec("next_pu_index"), 8),
+    ("balanced", "decode_balanced_distribution", 5, LOCAL_DECLS + locvec("next_pu_index") + locvec("num_pus_cores", writes=None, incs=1) + PU_INDEXES, 8),
+    ("numa_balanced", "decode_numabalanced_distribution", 11, LOCAL_DECLS + locvec(NCS) + locvec(NPS, writes=None, pre_incs=1) + locvec(NTS) +
+     locvec("next_pu_index") + locvec("num_pus_cores", writes=None, incs=1) + PU_INDEXES, 8),
+]
+for (bn, fn, nl, extra, unw) in BOUNDED:
+    UNITS.append(Unit("bounded." + bn, "bounded.c", defines=["DECODE=" + fn], kind="bounded", unwind=unw, timeout=600,
+                      lifts=dict(B_HELP, body=nocontract(nl, r"void %s\(" % fn, extra)), loop_contracts=False, no_replay=True,
+                      funcs=[PAO + ": " + fn + ", check_num_threads, pu_in_process_mask"],
+                      doc="BOUNDED: <= 2 sockets x <= 3 cores x <= 2 PUs, threads 1..#PUs+1, ec == throws, used_cores == 0, max_cores >= #cores: "
+                          "all workers assigned to exactly one PU inside the mask, pairwise distinct, reported PU == bound PU"))
+
 META = {"trusted_base": [], "assumptions": [], "not_decided": []}
